@@ -754,16 +754,26 @@ def run(ctx):
     except facts.TieBroken as e:
         tie = 'fact extraction failed: %s' % e
         nofacts = True
+    try:
+        from harness.props import c09_tie
+        ctx.coverage['translated_from_source'] = c09_tie.extract(ctx)
+    except facts.TieBroken as e:
+        tie = tie or ('translation of pyhf/infer/intervals/upper_limits.py to Gallina failed (harness/props/c09_tie.py): %s' % e)
     if tie is None:
         ok, txt = core.prove(ctx)
         if not ok:
-            tie = 'proof obligations of props/C09.v no longer check: ' + txt[-1500:]
+            why = ('the functions translated from the source no longer coincide with the hand model (coq/TieUpperLimit.v, C09_source_is_model_*): '
+                   if ('TieUpperLimit' in txt or 'source_is_model' in txt or 'UpperLimitGen' in txt) else 'proof obligations of props/C09.v no longer check: ')
+            tie = why + txt[-1500:]
             # the model file itself must be available for the correspondence even when a tie lemma fails
             core.coq_make(['UpperLimit.vo'])
             if 'FactsC09' in txt or 'C09_' in txt:
                 pass
     else:
         core.coq_make(['UpperLimit.vo'])
+    ctx.trusted += ['harness/props/c09_tie.py + harness/props/tie_translate.py (python ast -> Gallina for _interp, linear_grid_scan, toms748_scan with its nested '
+                    'functions and extension loops, upper_limit; fail closed): C09_source_is_model_* prove the translated definitions equal to the hand model; '
+                    'the reading of the external names (hypotest, np.interp, np.argmin/argmax, toms748, the dict) is stated in the header of coq/gen/UpperLimitGen.v']
     ctx.trusted += ['harness/props/c09.py:extract (python ast -> FactsC09.v: argument binding of the two scan calls inside upper_limit and of the '
                     'deprecated alias, use of level inside toms748_scan/linear_grid_scan) - a syntactic reading of the source',
                     'scipy.optimize.toms748 enters auto_limit_solves as a Section variable with its post-condition (toms_post) as hypothesis; '
